@@ -27,6 +27,8 @@ type DiceSpec struct {
 	Seed   uint64 `json:"seed"`
 	// common
 	Times, Sides   int64
+	NoSides        bool  `json:",omitempty"` // VM only: sides omitted (Nd...), taken from the default-sides expression
+	DefExpr        bool  `json:",omitempty"` // ... which is configured as the text of Sides (else the built-in 100)
 	Keep           int   `json:",omitempty"` // 0 none, 1 kl, 2 kh, 3 dl, 4 dh
 	KeepN          int64 `json:",omitempty"`
 	HasMin, HasMax bool  `json:",omitempty"`
@@ -67,6 +69,17 @@ func genDiceSpec(r *Rng) DiceSpec {
 		}
 		if r.Chance(1, 4) {
 			d.HasMax, d.Max = true, bnd(1, 2, 3, 5, 0, d.Sides-1, d.Sides+5)
+		}
+		if d.Via == "vm" && d.Times >= 1 && d.Sides >= 1 && d.Sides <= 1000 && r.Chance(1, 4) {
+			// the Nd form: sides come from the default-sides expression (100 unless configured)
+			d.NoSides = true
+			d.DefExpr = r.Bool()
+			if !d.DefExpr {
+				d.Sides = 100
+			}
+			if d.HasMin && d.HasMax {
+				d.HasMax = false
+			}
 		}
 	case 4, 5:
 		d.Fam = "coc"
@@ -138,6 +151,9 @@ func (d *DiceSpec) term() string {
 	switch d.Fam {
 	case "common":
 		s := p(d.Times) + "d" + p(d.Sides)
+		if d.NoSides {
+			s = p(d.Times) + "d"
+		}
 		switch d.Keep {
 		case 1:
 			s += "kl" + p(d.KeepN)
@@ -541,6 +557,9 @@ func c04Exec(raw json.RawMessage, res *RunResult) {
 				return
 			}
 			cfg := CfgSpec{WoD: true, CoC: true, Fate: true, DC: true, Seeded: true, SeedA: d.Seed, SeedB: d.Seed ^ 99, Min: mode == -1, Max: mode == 1}
+			if d.NoSides && d.DefExpr {
+				cfg.DefaultSide = strconv.FormatInt(d.Sides, 10)
+			}
 			vm := cfg.NewVM()
 			own = vm.RandSrc
 			err = vm.Run(d.term())
